@@ -288,12 +288,13 @@ func runC13(c *an.Ctx) {
 		t, ff := c.T(perform), c.F(perform)
 		nNil := 0
 		var recvTerm string
-		for _, r := range ff.Returns() {
-			if t.ErrShape(errResult(r)) != "nil" {
+		for _, vr := range virtualReturns(ff) {
+			r := vr.r
+			if t.ErrShape(vr.err()) != "nil" {
 				continue
 			}
-			fs := ff.AtInstr(r)
-			res0 := t.Of(r.Results[0])
+			fs := vr.fs
+			res0 := t.Of(vr.res[0])
 			if fs.Has(an.EQ("p2.Amount", "0")) {
 				c.Ok("C13.d", "amount-zero-empty", "Amount==0 is the only way to an empty nil-error result", perform, r, "", fs)
 				continue
@@ -312,8 +313,8 @@ func runC13(c *an.Ctx) {
 			failed := an.NE(recvTerm+".err", "nil")
 			okCont := true
 			var at ssa.Instruction
-			for _, r := range ff.Returns() {
-				fs := ff.AtInstr(r)
+			for _, vr := range virtualReturns(ff) {
+				r, fs := vr.r, vr.fs
 				if !fs.Has(failed) {
 					continue
 				}
@@ -413,8 +414,9 @@ func runC13(c *an.Ctx) {
 		}
 		// all failed: the return after the collecting loop returns lastErr, whose loop-carried value is r.err under r.err != nil
 		if recvTerm != "" {
-			for _, r := range ff.Returns() {
-				ev := t.Deref(errResult(r))
+			for _, vr := range virtualReturns(ff) {
+				r := vr.r
+				ev := t.Deref(vr.err())
 				ph, ok := ev.(*ssa.Phi)
 				if !ok {
 					continue
@@ -476,7 +478,7 @@ func runC13(c *an.Ctx) {
 						continue
 					}
 					for _, s := range b.Succs {
-						if !inLoop[s] && (s == r.Block() || blockReaches(s, r.Block())) {
+						if !inLoop[s] && vr.reachedFrom(b, s) {
 							early = fmt.Sprintf("block %d leaves the loop towards this return", b.Index)
 						}
 					}
